@@ -9,7 +9,10 @@ from .. import values as V
 from . import common
 from . import joinmodel as J
 
-RULE = ("every table carries a hidden unique row-id column. exhaustive: all key columns over {None,1,2} of length 0-5 x reverse x na_last for "
+from . import recompute
+
+RULE = ("[plus the shared recompute-after-history monitor: this property's operations evaluated on long-lived objects between in-place writes / renames must equal the same operations on fresh objects rebuilt from the current contents] "
+	"every table carries a hidden unique row-id column. exhaustive: all key columns over {None,1,2} of length 0-5 x reverse x na_last for "
 	"Table.sort_by (key by name / own column / external vector; reverse given as bool, list or tuple) and Vector.sort_by; sampled: 1-3 keys with "
 	"every combination of per-key direction and na_last, heavy ties, str/date/float/bool/int keys, keys already ordered in the input, re-sorting a "
 	"sorted table. The oracle is a checker, not a second sort: ids form a permutation, cells stay with their id, adjacent rows are in order under "
@@ -22,7 +25,7 @@ ASSUMPTIONS = [
 ]
 EXHAUSTIVE = {"flag": True, "scope": "all single key columns over {None,1,2} up to length 5 x reverse x na_last, tables and vectors"}
 ANCHOR_FUNCS = ["table:Table.sort_by", "vector:Vector.sort_by"]
-REQUIRED_STRATA = {"table-sort": 1500, "vector-sort": 800, "resort": 300}
+REQUIRED_STRATA = {"recompute": 200, "table-sort": 1500, "vector-sort": 800, "resort": 300}
 
 
 def cmp_vals(a, b):
@@ -205,6 +208,7 @@ def run_vector_sort(chk, spec):
 
 
 RUNNERS = {"table_sort": run_table_sort, "vector_sort": run_vector_sort}
+RUNNERS["recompute"] = recompute.runner("C14")
 
 SORT_DOMAINS = {
 	"int": [1, 2, 3, 1, 2, 0, -1],
@@ -240,11 +244,19 @@ def gen_sort_spec(rng, max_rows=8):
 		cols.append(V.column(rng, rng.choice(["int", "str", "float"]), n, rng.choice(["none", "low", "high"]), small=True))
 	form = rng.choice(["bool", "bool", "list", "tuple"])
 	revs = [rng.random() < 0.5 for _ in range(nkeys)]
+	if nkeys < 3 and rng.random() < 0.2:
+		# the same key column mentioned twice with opposite directions: the first mention decides
+		j = rng.randrange(nkeys)
+		by.append(dict(by[j]))
+		revs.append(not revs[j])
+		nkeys += 1
+		form = rng.choice(["list", "tuple"])
 	return {"table": {"names": names, "cols": cols}, "by": by, "reverse": revs, "reverse_form": form, "na_last": rng.random() < 0.6,
 		"scalar_by": nkeys == 1 and rng.random() < 0.5, "by_container": rng.choice(["list", "tuple"]), "id_first": rng.random() < 0.3}
 
 
 def run(chk):
+	recompute.add_cases(chk, "C14")
 	rng = chk.rng
 	idx = 0
 	for n in range(0, 6):
